@@ -381,7 +381,7 @@ type info struct {
 func workerEnv(tmp string, race bool) []string {
 	env := append([]string{}, goEnv...)
 	if race {
-		env = append(env, "GORACE=log_path="+filepath.Join(tmp, "race")+" halt_on_error=0 history_size=3")
+		env = append(env, "GORACE=log_path="+filepath.Join(tmp, "race")+" halt_on_error=0 history_size=5 exitcode=0")
 	}
 	return env
 }
@@ -482,15 +482,25 @@ func checkProperty(prop, tier string, seed uint64, runs, budget, workers int, re
 	tmp := mkScratch("verif-run-")
 
 	if replay != "" {
-		cmd := exec.Command(bi.Worker, "replay", "--file", replay, "--tmp", filepath.Join(tmp, "w"))
-		cmd.Env = append(os.Environ(), workerEnv(tmp, in.Flavor == "race")...)
-		out, err := cmd.CombinedOutput()
-		os.Stdout.Write(out)
-		if ee, ok := err.(*exec.ExitError); ok && ee.ExitCode() == 1 {
-			fmt.Printf("VIOLATION property=%s replay=%s\n", prop, replay)
-			return 1
-		} else if err != nil {
-			infra("replay: %v", err)
+		tries := 1
+		if in.Flavor == "race" {
+			tries = 3 // the race detector misses a race in a few percent of executions; the schedule itself replays exactly
+		}
+		for k := 0; k < tries; k++ {
+			cmd := exec.Command(bi.Worker, "replay", "--file", replay, "--tmp", filepath.Join(tmp, fmt.Sprintf("w%d", k)))
+			cmd.Env = append(os.Environ(), workerEnv(tmp, in.Flavor == "race")...)
+			out, err := cmd.CombinedOutput()
+			if ee, ok := err.(*exec.ExitError); ok && ee.ExitCode() == 1 {
+				os.Stdout.Write(out)
+				fmt.Printf("VIOLATION property=%s replay=%s\n", prop, replay)
+				return 1
+			} else if err != nil {
+				os.Stdout.Write(out)
+				infra("replay: %v", err)
+			}
+			if k == tries-1 {
+				os.Stdout.Write(out)
+			}
 		}
 		fmt.Println("replay: the expected violation did not occur")
 		return 0
@@ -728,7 +738,9 @@ func tail(s string, n int) string {
 
 func writeReplay(prop string, seed, runIdx uint64, c json.RawMessage, v sim.Violation) string {
 	var m map[string]any
-	json.Unmarshal(c, &m)
+	dec := json.NewDecoder(bytes.NewReader(c))
+	dec.UseNumber() // 64-bit seeds must survive the round trip exactly
+	dec.Decode(&m)
 	if m == nil {
 		m = map[string]any{}
 	}
@@ -764,12 +776,22 @@ func minimiseAndReplay(bi *buildInfo, in *info, prop string, seed uint64, f foun
 	}
 	os.Remove(small)
 	// replay in a fresh process: must fail the same way
+	// The schedule, map orders and faults of a case replay exactly. The Go race
+	// detector itself, however, misses a given race in a few percent of
+	// executions (shadow-cell eviction): a case whose expected violation is a
+	// race report is therefore executed up to three times per attempt.
+	tries := 1
+	if in.Flavor == "race" && f.V.Clause == "race" {
+		tries = 3
+	}
 	for attempt := 0; attempt < 2; attempt++ {
-		rc := exec.Command(bi.Worker, "replay", "--file", orig, "--tmp", filepath.Join(tmp, "shrink", "r"))
-		rc.Env = env
-		err := rc.Run()
-		if ee, ok := err.(*exec.ExitError); ok && ee.ExitCode() == 1 {
-			return orig, true
+		for k := 0; k < tries; k++ {
+			rc := exec.Command(bi.Worker, "replay", "--file", orig, "--tmp", filepath.Join(tmp, "shrink", "r"))
+			rc.Env = env
+			err := rc.Run()
+			if ee, ok := err.(*exec.ExitError); ok && ee.ExitCode() == 1 {
+				return orig, true
+			}
 		}
 		// the minimised case does not replay: fall back to the unminimised one
 		if attempt == 0 {
